@@ -116,6 +116,18 @@ def judge(case):
     C = np.array(case["coords"], dtype=float).reshape(-1, 3)
     q = np.array(case["charges"], dtype=float)
     V = lib(point_charge_integral, bas, C, q)
+    # positive charges stored in another numeric dtype (unsigned / 32-bit atomic numbers): rejected, or negative semi-definite too
+    zi = np.maximum(1, np.minimum(100, np.rint(q))).astype(int)
+    for dt in (np.uint8, np.uint32, np.int32):
+        try:
+            Vd = point_charge_integral(bas, C, zi.astype(dt))
+        except Exception:  # noqa: BLE001 - rejecting the dtype is the documented alternative
+            continue
+        v.classes.append("charge-dtype-accepted")
+        for k in range(len(zi)):
+            w = np.linalg.eigvalsh((Vd[:, :, k] + Vd[:, :, k].T) / 2)
+            if not w[-1] <= 1e-9 * np.abs(w).max():
+                return v.fail(f"point-charge matrix of the positive charge {int(zi[k])} stored as {np.dtype(dt).name} has eigenvalue {w[-1]:.3e} > 0")
     for k in range(len(q)):
         Vk = V[:, :, k]
         if _sym(v, "point-charge matrix", Vk, 1e-8):
